@@ -312,3 +312,19 @@ package typed
 //@   ensures len(b) <= len(ref) ==> samebytes(ref, 0, old(b), 0, len(b))
 //@   ensures len(b) > len(ref) ==> samebytes(ref, 0, old(b), 0, len(ref))
 //@   property C01 C02
+
+// WriteUvarint writes the canonical base-128 varint of n: 1..10 bytes, every
+// byte but the last with the continuation bit set, the last one without it
+// (so a reader always finds the end), a single byte n itself when n < 128.
+//@ func (w *WriteBuffer) WriteUvarint(n uint64)
+//@   modifies w.remaining, w.err, elems(w.remaining)
+//@   ensures Suffix(w.remaining, old(w.remaining))
+//@   ensures old(w.err) != nil ==> w.err == old(w.err) && w.remaining == old(w.remaining)
+//@   label varint-is-terminated
+//@   ensures old(w.err) == nil && w.err == nil ==> 1 <= len(old(w.remaining)) - len(w.remaining) && len(old(w.remaining)) - len(w.remaining) <= 10 &&
+//@             u8at(old(w.remaining), len(old(w.remaining)) - len(w.remaining) - 1) < 128
+//@   label continuation-bits-set
+//@   ensures old(w.err) == nil && w.err == nil ==> forall i int :: 0 <= i && i < len(old(w.remaining)) - len(w.remaining) - 1 ==> u8at(old(w.remaining), i) >= 128
+//@   label small-values-take-one-byte
+//@   ensures old(w.err) == nil && w.err == nil && n < 128 ==> len(old(w.remaining)) - len(w.remaining) == 1 && u8at(old(w.remaining), 0) == n
+//@   property C18 C06
